@@ -276,7 +276,7 @@ impl Prop for C11 {
                 v.push(json!({"kind": "exh", "ty": ty, "first": a, "maxlen": maxlen}));
             }
             for n in 1..=5usize {
-                for k in 0..tier.pick(40, 400) {
+                for k in 0..tier.pick(120, 800) {
                     v.push(json!({"kind": "random", "ty": ty, "subs": n, "len": 30, "seed": mix(seed ^ (k as u64) << 3 ^ n as u64)}));
                 }
             }
